@@ -874,7 +874,8 @@ FOOTPRINT = {
            [(LFQF, 'LFQ.__init__'), (LFQF, 'LFQ.bits_to_codes'), (LFQF, 'LFQ.indices_to_codes'), (LFQF, 'LFQ.forward'), (LQ, 'LatentQuantize.codes_to_indices'),
             (LQ, 'LatentQuantize.indices_to_codes'), (LQ, 'LatentQuantize._scale_and_shift'), (LQ, 'LatentQuantize._scale_and_shift_inverse')],
     'C05': [(FSQF, n) for n in ('round_ste', 'floor_ste', 'FSQ.bound', 'FSQ.symmetry_preserving_bound', 'FSQ.quantize', 'FSQ.forward')] + [(LFQF, 'LFQ.forward')],
-    'C06': _RES_FWD + _GRP_FWD + [(RVQ, 'ResidualVQ.codebooks'), (RVQ, 'ResidualVQ.get_codes_from_indices'), (RVQ, 'GroupedResidualVQ.split_dim')],
+    'C06': _RES_FWD + _GRP_FWD + [(RVQ, 'ResidualVQ.codebooks'), (RVQ, 'ResidualVQ.get_codes_from_indices'), (RVQ, 'GroupedResidualVQ.split_dim'), (RVQ, 'MLP.forward'),
+            (VQ, f'{_VQc}.forward')] + _CB_FWD,
     'C07': _ROT + [(VQ, 'gumbel_sample'), (VQ, f'{_VQc}.forward'), (FSQF, 'round_ste'), (FSQF, 'floor_ste'), (FSQF, 'FSQ.quantize'), (LFQF, 'LFQ.forward'), (SIMVQ, 'SimVQ.forward'),
                    (LQ, 'LatentQuantize.quantize')] + _CB_FWD,
     'C08': _ALL_FWD + [(VQ, f'{_VQc}.update_in_place_optimizer'), (VQ, f'{_VQc}.expire_codes_'), (VQ, f'{_EU}.expire_codes_'), (VQ, f'{_CO}.expire_codes_'),
